@@ -79,6 +79,73 @@ def j1(led, rid, ctx):
                     who.add((g.parent or g.defn).rsplit("::", 1)[-1])
     led.check(who <= {"add_asserting_nogood", "add_permanent_nogood"} and who, rid, "delete_ids-reused-when-storing",
               None, "freed ids are reused by %s" % sorted(who), "freed nogood ids are popped in %s" % sorted(who))
+    j1_table(led, rid, ctx)
+
+
+def j1_table(led, rid, ctx):
+    """TABLE of is_nogood_propagating: in the world where predicates[0] is false, its trail entry
+    has a reason, that reason belongs to the nogood propagator and carries this nogood's code (or
+    none), every feasible path answers true"""
+    from ..symexec import SymExec, variant_name
+    from ..predalg import ev, Unknown
+    lib = ctx.lib
+    f = lib.method("NogoodPropagator", "is_nogood_propagating")
+    n = 0
+    for code_absent in (0, 1):
+        def leaf(e, code_absent=code_absent):
+            if e.k == "call":
+                nm = e.a.name
+                if nm == "is_predicate_falsified":
+                    return 1
+                if nm == "is_none" and "get_lazy_code" in show(e):
+                    return code_absent
+                if nm == "is_some" and "get_lazy_code" in show(e):
+                    return 1 - code_absent
+                if nm in ("eq",) and "get_propagator" in show(e) and "get_nogood_propagator_id" in show(e):
+                    return 1
+                if nm in ("ne",) and "get_propagator" in show(e) and "get_nogood_propagator_id" in show(e):
+                    return 0
+            s_ = show(e)
+            if "get_lazy_code" in s_ and e.k in ("proj", "call", "cast"):
+                return 7
+            if e.k == "cast":
+                return None
+            if e.k == "proj" and e.b and e.b[-1].get("name") == "id" and peel(e.a, calls=None).k == "arg":
+                return 7
+            return None
+        for p in SymExec(f).run():
+            if p.diverged:
+                continue
+            ok = True
+            extra = []
+            for cond, val, others in p.conds:
+                if cond.k == "discr":
+                    if "reason" in show(cond):
+                        if variant_name(f, cond, val, others) != "Some":
+                            ok = False
+                    continue
+                try:
+                    w = ev(cond, leaf)
+                except Unknown:
+                    extra.append(show(cond)[:90])
+                    continue
+                if (val is not None and w != val) or (val is None and others and w in others):
+                    ok = False
+            if not ok:
+                continue
+            n += 1
+            try:
+                r = ev(p.ret, leaf) if p.ret is not None else None
+            except Unknown:
+                r = None
+            led.check(r == 1, rid, "is_nogood_propagating:reason-of-trail-entry%s%s" % (
+                      ":no-code" if code_absent else "", (":" + extra[0]) if extra and r != 1 else ""), f.span,
+                      "answers true", "is_nogood_propagating can answer %s for a nogood that is the reason of "
+                      "the trail entry of its propagated predicate (path through %s): the nogood may be "
+                      "deleted and its id recycled while conflict analysis still needs it"
+                      % ("false" if r == 0 else show(p.ret)[:60] if p.ret is not None else "nothing",
+                         extra or "the recognised tests only"))
+    led.floor(rid, "feasible rows of is_nogood_propagating", n, 2)
 
 
 def j2(led, rid, ctx):
@@ -176,6 +243,71 @@ def j5(led, rid, ctx):
                   "find_last_decision reads two entries but never rebuilds the equality predicate")
 
 
+def j7(led, rid, ctx):
+    """the no-learning resolver: the flipped decision is enqueued with a reason that enumerates the
+    decisions of every level below the one being undone; levels are evaluated symbolically
+    (get_decision_level() is L before the backtrack and the backtrack target after it)"""
+    from ..predalg import ev, Unknown
+    lib = ctx.lib
+    f = lib.method("NoLearningResolver", "process", "*")
+    R = resolver(f)
+    cfg = f.cfg
+    enq = f.calls_named("enqueue_propagated_predicate")
+    bts = f.calls_named("backtrack")
+    led.check(len(enq) == 1 and len(bts) == 1, rid, "no-learning:flip-has-reason", f.span,
+              "one backtrack, one enqueue_propagated_predicate",
+              "the no-learning resolver no longer backtracks once and enqueues the flipped decision "
+              "with a stored reason (%d backtracks, %d enqueues): core extraction reads that reason"
+              % (len(bts), len(enq)))
+    if len(enq) != 1 or len(bts) != 1:
+        return
+    e, bt = enq[0], bts[0]
+    L0 = 10
+
+    def level_leaf(x):
+        if x.k == "call" and x.a.name == "get_decision_level":
+            if x.a.bb != bt.bb and cfg.dominates(bt.bb, x.a.bb):
+                return ev(R.operand(bt.args[1]), level_leaf)
+            return L0
+        return None
+    # the flipped predicate
+    flipped = peel(R.operand(e.args[1]), calls=None)
+    ok = flipped.k == "call" and flipped.a.name == "not" and \
+        any(c.name == "find_last_decision" for c in flipped.calls())
+    led.check(ok, rid, "no-learning:flips-last-decision", e.span, "enqueues !find_last_decision()",
+              "the predicate enqueued after the backtrack is not the negation of the last decision (%s)"
+              % show(flipped)[:100])
+    # backtrack target
+    try:
+        tgt = ev(R.operand(bt.args[1]), level_leaf)
+    except Unknown as u:
+        tgt = None
+    led.check(tgt == L0 - 1 and cfg.dominates(bt.bb, e.bb), rid, "no-learning:backtracks-one-level", bt.span,
+              "backtrack(L-1) before the flipped decision is enqueued",
+              "the no-learning resolver backtracks to level %s (of L=%d) or enqueues before it backtracks" % (tgt, L0))
+    # the reason: a range of levels
+    reason = R.operand(e.args[2])
+    rngs = [x for x in reason.walk() if x.k == "agg" and (x.a or "").split("::")[-1] in ("Range", "RangeInclusive")]
+    incl = [x for x in reason.walk() if x.k == "call" and x.a.name == "new" and "RangeInclusive" in (x.a.target_def or "")]
+    hi = lo = None
+    try:
+        if rngs:
+            r = rngs[0]
+            lo = ev(r.c[0], level_leaf)
+            hi = ev(r.c[1], level_leaf) - (0 if r.a.split("::")[-1] == "Range" else -1) - 1
+        elif incl:
+            lo = ev(incl[0].b[0], level_leaf)
+            hi = ev(incl[0].b[1], level_leaf)
+    except Unknown:
+        pass
+    led.check(lo is not None and lo <= 1 and hi == L0 - 1, rid, "no-learning:reason-covers-earlier-levels", e.span,
+              "levels 1..L-1",
+              "the reason stored for the flipped decision enumerates the decisions of levels %s..%s where "
+              "L-1 = %d is required (L = level of the undone decision): a decision the flip depends on is "
+              "missing, and a core extracted through this reason drops an assumption"
+              % (lo, hi, L0 - 1))
+
+
 def run(ctx, led):
     run_rule(led, "J1", "a nogood is deleted only if not propagating, after both watchers are removed; "
              "freed ids are reused only when storing", j1, ctx)
@@ -185,3 +317,4 @@ def run(ctx, led):
     run_rule(led, "J4", "configuration-only code is total: no explicit panic in the call closure of "
              "nogood deletion", j4, ctx)
     run_rule(led, "J5", "ARITY: the decision is read back with the arity it was written with", j5, ctx)
+    run_rule(led, "J7", "no-learning resolver: the flipped decision carries a reason covering every earlier decision level (symbolic levels)", j7, ctx)
